@@ -430,7 +430,6 @@ pub fn encode_with_fixed_block_size<T: Source>(
         })
         .collect();
 
-    let src_len_hint = src.len_hint();
     let mut context = ParContext::new(Context::new(src.bits_per_sample(), src.channels()));
     let feed_result = feed_fixed_block_size(src, block_size, worker_count, &parbuf, &mut context)
         .map(|(feed_stats, _)| feed_stats);
@@ -478,9 +477,11 @@ pub fn encode_with_fixed_block_size<T: Source>(
         .set_block_sizes(block_size, block_size)
         .unwrap();
 
+    // The count of the samples actually consumed; `src.len_hint()` may include
+    // samples that were read from the source before encoding started.
     stream
         .stream_info_mut()
-        .set_total_samples(src_len_hint.unwrap_or_else(|| context.total_samples()));
+        .set_total_samples(context.total_samples());
 
     Ok(stream)
 }
